@@ -46,6 +46,10 @@ var c08Queries = []string{
 	"SELECT id FROM {T} WHERE a > GETVAR('min')",
 	"SELECT id, GETVAR('tag') AS tag, CONSTANT('c') AS c FROM {T} WHERE a >= CONSTANT('c')",
 	"SELECT SETVAR('last', id), GETVAR('last') AS last FROM {T}",
+	// columns qualified with the table's own name (a path into the row: NULL on this data, for the
+	// one-dimensional and the nested source alike)
+	"SELECT m.a AS qa, id FROM {T}",
+	"SELECT id FROM {T} WHERE m.a > 1 OR a > 2",
 }
 
 func c08Opts(vars map[string]any) []genql.QueryOption {
@@ -143,13 +147,11 @@ func (p *c08) Init(tier string) {
 	p.docs = append(p.docs, []any{[]any{}, []any{[]any{}}}, []any{})
 }
 
-func (p *c08) NumCases() int { return len(c08Queries) * 2 }
+func (p *c08) NumCases() int { return len(c08Queries) * 4 }
 
 func (p *c08) Describe(i int) any {
-	kind := "nested result vs per-inner-array executions"
-	if i >= len(c08Queries) {
-		kind = "mix=> + one query vs concatenation of the inner results"
-	}
+	kind := []string{"nested result vs per-inner-array executions", "mix=> + one query vs concatenation of the inner results",
+		"nested result over the ranged source m[(1:end)] vs per-inner-array executions", "mix=>m[(1:end)] + one query vs concatenation of the inner results"}[i/len(c08Queries)]
 	return map[string]any{"query": c08Queries[i%len(c08Queries)], "kind": kind, "documents": fmt.Sprintf("%d documents: every outer array of <= %d inner arrays (each <= 2 rows over 3 archetypes, ragged, empty) and depth-3 nestings", len(p.docs), map[string]int{"quick": 2, "thorough": 3}[p.tier])}
 }
 
@@ -162,7 +164,8 @@ func (p *c08) expected(r *core.CaseResult, q string, v []any, flat *[]any) (any,
 		}
 	}
 	if isRows && len(v) > 0 || len(v) == 0 {
-		o := gq.Run(map[string]any{"leaf": gq.Clone(any(v))}, strings.ReplaceAll(q, "{T}", "leaf"), c08Opts(p.vars)...)
+		// the same statement, with the table name bound to one inner array
+		o := gq.Run(map[string]any{"m": gq.Clone(any(v))}, strings.ReplaceAll(q, "{T}", "m"), c08Opts(p.vars)...)
 		r.Execs++
 		if o.Failed() {
 			return nil, false
@@ -202,7 +205,10 @@ func (p *c08) RunCase(i int) *core.CaseResult {
 	defer withNoise()()
 	r := &core.CaseResult{}
 	q := c08Queries[i%len(c08Queries)]
-	mix := i >= len(c08Queries)
+	variant := i / len(c08Queries)
+	mix := variant == 1 || variant == 3
+	// variants 2 and 3: the source is a range of the outer array with an open end, `m[(1:end)]`
+	ranged := variant >= 2
 	if mix && (strings.Contains(q, "AVG(") || strings.Contains(q, "MAX(") || strings.Contains(q, "MIN(") || strings.Contains(q, "COUNT(")) {
 		// a whole-table aggregate ranges over the flattened source under mix=>: the concatenation law
 		// is a statement about per-row filters and projections only
@@ -215,7 +221,14 @@ func (p *c08) RunCase(i int) *core.CaseResult {
 		shape = "filter+projection"
 	}
 	genql.VerifResetSelectorCache()
-	for _, m := range p.docs {
+	for _, full := range p.docs {
+		m := full
+		if ranged {
+			if len(full) < 1 {
+				continue
+			}
+			m = full[1:]
+		}
 		var flat []any
 		p.vars = map[string]any{"min": 1.0, "tag": "x"}
 		want, ok := p.expected(r, q, m, &flat)
@@ -223,19 +236,23 @@ func (p *c08) RunCase(i int) *core.CaseResult {
 			r.Unspecified++
 			continue
 		}
-		if len(m) == 0 && !mix {
+		if len(m) == 0 && !mix && !ranged {
 			continue
 		}
-		doc := map[string]any{"m": gq.Clone(any(m))}
+		doc := map[string]any{"m": gq.Clone(any(full))}
+		src, msrc := "m", "`mix=>m`"
+		if ranged {
+			src, msrc = "`m[(1:end)]`", "`mix=>m[(1:end)]`"
+		}
 		var sql string
 		if mix {
-			sql = strings.ReplaceAll(q, "{T}", "`mix=>m`")
+			sql = strings.ReplaceAll(q, "{T}", msrc)
 			want = any(flat)
 			if flat == nil {
 				want = []any{}
 			}
 		} else {
-			sql = strings.ReplaceAll(q, "{T}", "m")
+			sql = strings.ReplaceAll(q, "{T}", src)
 		}
 		o := gq.Run(doc, sql, c08Opts(map[string]any{"min": 1.0, "tag": "x"})...)
 		r.Execs++
@@ -248,15 +265,15 @@ func (p *c08) RunCase(i int) *core.CaseResult {
 		// selector-cache differential: the nested and the mix=> spelling of the same source are
 		// evaluated alternately in one process; neither may change what the other returns
 		if got == w {
-			other := strings.ReplaceAll(q, "{T}", "`mix=>m`")
+			other := strings.ReplaceAll(q, "{T}", msrc)
 			if mix {
-				other = strings.ReplaceAll(q, "{T}", "m")
+				other = strings.ReplaceAll(q, "{T}", src)
 			}
-			gq.Run(map[string]any{"m": gq.Clone(any(m))}, other, c08Opts(map[string]any{"min": 1.0, "tag": "x"})...)
-			again := outcome(gq.Run(map[string]any{"m": gq.Clone(any(m))}, sql, c08Opts(map[string]any{"min": 1.0, "tag": "x"})...))
+			gq.Run(map[string]any{"m": gq.Clone(any(full))}, other, c08Opts(map[string]any{"min": 1.0, "tag": "x"})...)
+			again := outcome(gq.Run(map[string]any{"m": gq.Clone(any(full))}, sql, c08Opts(map[string]any{"min": 1.0, "tag": "x"})...))
 			r.Execs += 2
 			if again != got {
-				r.Fail("C08|cache|nested-and-mix-interfere", fmt.Sprintf("%s on m=%s returned %s, but %s after %s had been evaluated in the same process", sql, gq.Render(m), got, again, other), map[string]any{"sql": sql, "then": other, "doc": map[string]any{"m": m}})
+				r.Fail("C08|cache|nested-and-mix-interfere", fmt.Sprintf("%s on m=%s returned %s, but %s after %s had been evaluated in the same process", sql, gq.Render(full), got, again, other), map[string]any{"sql": sql, "then": other, "doc": map[string]any{"m": full}})
 			}
 		}
 		if got != w {
@@ -268,7 +285,7 @@ func (p *c08) RunCase(i int) *core.CaseResult {
 			if strings.HasPrefix(got, "error") || strings.HasPrefix(got, "panic") {
 				mode = got[:5]
 			}
-			r.Fail(fmt.Sprintf("C08|%s|%s|depth=%d|%s", kind, shape, depthOf(m), mode), fmt.Sprintf("%s on m=%s returned %s (%v %s); running the query on each inner array gives %s", sql, gq.Render(m), got, o.Err, o.Panic, w), map[string]any{"sql": sql, "doc": map[string]any{"m": m}})
+			r.Fail(fmt.Sprintf("C08|%s|%s|depth=%d|%s", kind, shape, depthOf(m), mode), fmt.Sprintf("%s on m=%s returned %s (%v %s); running the query on each inner array gives %s", sql, gq.Render(full), got, o.Err, o.Panic, w), map[string]any{"sql": sql, "doc": map[string]any{"m": full}})
 		}
 	}
 	return r
@@ -276,7 +293,7 @@ func (p *c08) RunCase(i int) *core.CaseResult {
 
 func (p *c08) Meta() core.Meta {
 	return core.Meta{
-		Rule:        "one case per (query, kind): 30 filter / projection queries (every WHERE operator family, non-idempotent select lists such as a+1 AS a, star plus expression, CASE, function calls, whole-table aggregates evaluated per row, GETVAR / SETVAR / CONSTANT under WithVars and WithConstants) run on a FROM path that resolves to arrays of arrays: every outer array of 1..2 (thorough 3) inner arrays, each any sequence of <= 2 rows over 3 archetypes (ragged, empty), plus depth-3 and depth-4 nestings (incl. levels with exactly as many arrays as their parent has elements, and empty arrays next to deeper ones); the nested result must equal the per-inner-array executions of the same query, and `mix=>` + one query must equal their concatenation. non-trivial = some inner result is non-empty",
+		Rule:        "one case per (query, kind): 32 filter / projection queries (every WHERE operator family, non-idempotent select lists such as a+1 AS a, star plus expression, CASE, function calls, whole-table aggregates evaluated per row, GETVAR / SETVAR / CONSTANT under WithVars and WithConstants) run on a FROM path that resolves to arrays of arrays: every outer array of 1..2 (thorough 3) inner arrays, each any sequence of <= 2 rows over 3 archetypes (ragged, empty), plus depth-3 and depth-4 nestings (incl. levels with exactly as many arrays as their parent has elements, and empty arrays next to deeper ones); the nested result must equal the per-inner-array executions of the same query, and `mix=>` + one query must equal their concatenation; both also with the source given as a range with an open end (`m[(1:end)]`, `mix=>m[(1:end)]`) over outer arrays of different lengths in one process. non-trivial = some inner result is non-empty",
 		Assumptions: []string{"only WHERE and the select list are claimed for nested sources (the property's statement); ORDER BY / LIMIT / aggregates over nested sources are not exercised"},
 		Bounds:      map[string]any{"queries": len(c08Queries), "documents": len(p.docs)},
 		Exhaustive:  true,
